@@ -5,6 +5,7 @@
                             state after it and flushes
    actions:  L:<bg>:<pid,...>   F:<arg|->:<pick>   G:<arg|->:<pick>
              J  E  B  Z  C   X:<pid>:<code>   S:<pid>:<sig>
+             N:<cmd>;<cmd>;..   a line of commands, cmd = L/<bg>/<pid,...> | F/<arg|->/<pick> | G/<arg|->/<pick> | J | B
    shell pgid = 1, has_terminal = isatty = true *)
 open C07_model
 
@@ -20,8 +21,17 @@ let ints_of s = if s = "" then [] else List.map zi (String.split_on_char ',' s)
 let bits_of s = if s = "" then [] else List.map (fun x -> x = "1") (String.split_on_char ',' s)
 let arg_of s = if s = "-" then None else Some (zi s)
 
+let cmd_of f =
+  match String.split_on_char '/' f with
+  | ["L"; bg; ps] -> CLaunch (ints_of ps, bg = "1")
+  | ["F"; a; p] -> CFg (arg_of a, zi p)
+  | ["G"; a; p] -> CBg (arg_of a, zi p)
+  | ["J"] -> CJobs | ["B"] -> CBuiltin
+  | _ -> failwith ("bad command " ^ f)
+
 let action_of f =
   match String.split_on_char ':' f with
+  | ["N"; cs] -> ALine (if cs = "" then [] else List.map cmd_of (String.split_on_char ';' cs))
   | ["L"; bg; ps] -> ALaunch (ints_of ps, bg = "1")
   | ["F"; a; p] -> AFg (arg_of a, zi p)
   | ["G"; a; p] -> ABg (arg_of a, zi p)
@@ -35,7 +45,7 @@ let job_str j =
   Printf.sprintf "%s:%s:[%s]:[%s]:%s:%s" (iz j.jid) (iz j.jgid) (zs j.jpids) (zs j.jstopped)
     (jst_str j.jst) (if j.jbg then "bg" else "fg")
 let pst_str = function PRun -> "R" | PStop -> "T" | PZomb (_, _) -> "Z" | PGone -> "G"
-let proc_str p = Printf.sprintf "%s/%s/%s" (iz p.ppid) (iz p.ppgid) (pst_str p.pst)
+let proc_str p = Printf.sprintf "%s/%s/%s/%s" (iz p.ppid) (iz p.ppgid) (pst_str p.pst) (if p.pblk then "b" else "u")
 let out_str = function
   | ODone (i, g, r) -> Printf.sprintf "done:%s:%s:%s" (iz i) (iz g) (iz r)
   | OStopped (i, g) -> Printf.sprintf "stopped:%s:%s" (iz i) (iz g)
@@ -48,11 +58,12 @@ let out_str = function
   | OJobLine (i, g, s, a) -> Printf.sprintf "line:%s:%s:%s:%s" (iz i) (iz g) (jst_str s) (if a then "1" else "0")
 let mode_str = function
   | AtPrompt -> "P"
-  | Waiting (g, _, w, v) ->
+  | Between _ -> "B"
+  | Waiting (g, _, w, v, _) ->
       Printf.sprintf "W:%s:[%s]:%s" (iz g) (zs w) (match v with VFg -> "fg" | VLaunch true -> "vl1" | VLaunch false -> "vl0")
 let kvs l = String.concat "," (List.map (fun (a, b) -> iz a ^ "=" ^ iz b) l)
 let st_str (s : st) =
-  Printf.sprintf "m=%s o=%s p=%s t=%s out=%s maps=%s/%s/%s/%s" (mode_str s.md) (iz s.owner)
+  Printf.sprintf "m=%s o=%s k=%s p=%s t=%s out=%s maps=%s/%s/%s/%s" (mode_str s.md) (iz s.owner) (if s.smask then "1" else "0")
     (String.concat "," (List.map proc_str s.k.procs))
     (String.concat ";" (List.map job_str s.k.shl.tab))
     (String.concat ";" (List.map out_str s.k.outs))
